@@ -38,10 +38,16 @@ func nonceLedger(c *vlib.Ctx, layer string, tol time.Duration, obs []nonceObs, c
 		for i := 0; i < len(os); i++ {
 			for j := i + 1; j < len(os); j++ {
 				limit := os[i].TS*1e9 + int64(tol)
-				if os[j].Arrival <= limit {
+				// the same signed request (same nonce, same timestamp) honoured twice is a
+				// refutation wherever the second arrival lies: beyond ts+tolerance the
+				// request is not acceptable at all, inside it the nonce must be remembered
+				sameRequest := os[j].TS == os[i].TS
+				if os[j].Arrival <= limit || sameRequest {
 					rel := "inside_window"
 					if os[j].Arrival == limit {
 						rel = "exactly_ts_plus_tolerance"
+					} else if os[j].Arrival > limit {
+						rel = "same_request_after_window"
 					}
 					sig := vlib.Signature{"class": "replay_accepted", "layer": layer, "when": rel, "between": os[j].Tag}
 					w := map[string]any{"nonce": n, "first": os[i], "second": os[j], "tolerance": tol.String()}
@@ -99,7 +105,8 @@ func c09L1(c *vlib.Ctx) {
 		clock.Set(time.Unix(0, first))
 		send("N", ts, true, "original")
 		// replay instants
-		instants := []int64{first, first + 1, tsNS + int64(tol) - 1, tsNS + int64(tol), tsNS + int64(tol), tsNS + int64(tol) + 1, tsNS + int64(tol) + int64(time.Second)}
+		instants := []int64{first, first + 1, tsNS + int64(tol) - 1, tsNS + int64(tol), tsNS + int64(tol), tsNS + int64(tol) + 1, tsNS + int64(tol) + int64(time.Second),
+			tsNS + int64(tol) + int64(400*time.Millisecond), tsNS + int64(tol) + int64(time.Second) - 1, tsNS + int64(tol) + int64(time.Second) + 1, tsNS + int64(tol) + int64(90*time.Second)}
 		for k := 0; k < 6; k++ {
 			instants = append(instants, first+int64(r.Intn(int(2*tol/time.Millisecond)+1))*int64(time.Millisecond))
 		}
